@@ -233,12 +233,20 @@ CHECKS = {
         "min_classes": {"quick": {"C08/race-detector-run": 20, "C08/gomaxprocs/1": 10, "C08/gomaxprocs/16": 10, "C08/workload/proxy-two-peers": 20, "C08/workload/openvpn-auth-echo": 20, "C08/workload/tee-echo": 20, "C08/workload/tls-sni-a-echo": 20, "C08/workload/tls-sni-b-take1-echo": 20, "C08/workload/udp-small-reads-echo": 40, "C08/workload/udp-deep-match-echo": 40, "C08/udp-everything-echoed": 100, "C08/workload/h2-victim-host-echo": 20, "C08/workload/h2-undefined-table-entry": 20, "C08/workload/tls-sni-c-proxied-over-tls": 20, "C08/workload/tls-sni-d-proxied-over-tls": 20, "C08/workload/subroute-fallthrough-echo": 20}},
         "runs": [
             # (SSL_CERT_FILE: the harness's TLS upstream is verified by the proxy against the system roots - for this process, its own certificate)
-            {"name": "crosstalk", "pkg": "./c08", "run": ".", "rapid_checks": {"quick": 40, "thorough": 3000}, "cpu": "1,2,4,16",
-             "env": {"SSL_CERT_FILE": "$VERIF/harness/c08/testdata/upstream-root.pem"},
-             "shards": {"quick": 1, "thorough": 8}, "timeout": {"quick": 600, "thorough": 7200}},
-            {"name": "race", "pkg": "./c08", "run": ".", "race": True, "rapid_checks": {"quick": 120, "thorough": 6000},
-             "env": {"SSL_CERT_FILE": "$VERIF/harness/c08/testdata/upstream-root.pem"},
-             "shards": {"quick": 1, "thorough": 8}, "timeout": {"quick": 900, "thorough": 7200}},
+            {"name": "crosstalk", "pkg": "./c08", "run": ".", "rapid_checks": 40, "cpu": "1,2,4,16", "tiers": ("quick",),
+             "env": {"SSL_CERT_FILE": "$VERIF/harness/c08/testdata/upstream-root.pem"}, "shards": 1, "timeout": 600},
+            {"name": "race", "pkg": "./c08", "run": ".", "race": True, "rapid_checks": 120, "tiers": ("quick",),
+             "env": {"SSL_CERT_FILE": "$VERIF/harness/c08/testdata/upstream-root.pem"}, "shards": 1, "timeout": 900},
+            # (thorough: the UDP test has runs of its own - its associations outlive each case by the server's 30 s idle
+            #  timeout, and the test paces itself so that a bounded number of them is alive at a time)
+            {"name": "crosstalk-tcp", "pkg": "./c08", "run": "TestConcurrentConnections|TestPerConnection", "rapid_checks": 3000, "cpu": "1,2,4,16", "tiers": ("thorough",),
+             "env": {"SSL_CERT_FILE": "$VERIF/harness/c08/testdata/upstream-root.pem"}, "shards": 8, "timeout": 7200},
+            {"name": "race-tcp", "pkg": "./c08", "run": "TestConcurrentConnections|TestPerConnection", "race": True, "rapid_checks": 6000, "tiers": ("thorough",),
+             "env": {"SSL_CERT_FILE": "$VERIF/harness/c08/testdata/upstream-root.pem"}, "shards": 8, "timeout": 7200},
+            {"name": "crosstalk-udp", "pkg": "./c08", "run": "TestConcurrentUDPAssociations", "rapid_checks": 500, "cpu": "1,2,4,16", "tiers": ("thorough",),
+             "shards": 8, "timeout": 7200},
+            {"name": "race-udp", "pkg": "./c08", "run": "TestConcurrentUDPAssociations", "race": True, "rapid_checks": 1200, "tiers": ("thorough",),
+             "shards": 8, "timeout": 7200},
         ],
     },
     "C03": {
